@@ -605,7 +605,8 @@ class Interface:
                 station_ids (List[str]): Names of each station.
 
         """
-        infrastructure_info: InfrastructureInfo = self._infrastructure_info()
+        # Hand out copies so that callers cannot alter the network's own arrays.
+        infrastructure_info: InfrastructureInfo = self.infrastructure_info()
         return Constraint(
             infrastructure_info.constraint_matrix,
             infrastructure_info.constraint_limits,
